@@ -143,6 +143,7 @@ class Unit:
         self.fn_overlays = {}    # qualified name -> info (for vacuity probes / evidence)
         self.stubbed = []        # fns emitted as external_body stubs with contracts
         self.imprecise = {}         # fns containing a construct this Verus handles imprecisely (spurious failures): qname -> reason
+        self.unspec_loops = set()   # fns containing a loop without any invariant (added by a change): panic freedom there is undecidable
         self.restructured = set()   # fns whose loops no longer map 1:1 onto the overlay's loop signatures
         self.header_uses = ['use vstd::prelude::*;']
         self.active = None       # set of sub-unit names whose bodies are verified (None = all)
@@ -166,6 +167,30 @@ class Unit:
         l1 = src.count('\n', 0, it['end']) + 1
         return text, dict(file=rel, kind=kind, name=(impl + '::' if impl else '') + name, lines=[l0, l1],
                           sha256=hashlib.sha256(text.encode()).hexdigest())
+
+    def audit(self, rel, name, impl=None, mod=None, sig=(), forbid=(), require=()):
+        """syntactic audit of a repository function that the overlay models by a hand-written STUB (its body is outside the Verus subset):
+        the real signature must still contain every `sig` text and the real body (comments stripped) must match every `require` regex and
+        none of the `forbid` regexes.  A failed audit means the stub's assumed contract may no longer describe the code: LostAnchor ->
+        the unit is undecided (exit 2), never green."""
+        text, prov = self.raw(rel, 'fn', name, impl, mod)
+        text = rules.strip_comments(text)
+        flat = ' '.join(text.split())
+        k = flat.find('{')
+        head, body = flat[:k], flat[k:]
+        q = (impl + '::' if impl else '') + name
+        for t in sig:
+            if ' '.join(t.split()) not in head:
+                raise LostAnchor('audit of stubbed %s: signature no longer contains %r' % (q, t))
+        for rx in forbid:
+            if re.search(rx, body):
+                raise LostAnchor('audit of stubbed %s: body now matches forbidden pattern %r (the stub assumes it does not)' % (q, rx))
+        for rx in require:
+            if not re.search(rx, body):
+                raise LostAnchor('audit of stubbed %s: body no longer matches %r' % (q, rx))
+        prov['audited_stub'] = True
+        prov['name'] = q
+        self.prov.append(prov)
 
     def item(self, rel, kind, name, impl=None, mod=None, pub_fields=True, post=None):
         """extract + clean a non-function item (struct/enum/const/type)."""
@@ -351,6 +376,13 @@ class Unit:
                 body = body[:bpos].rstrip() + '\n' + txt + '        ' + body[bpos:]
             if spec.get('before'):
                 body = body[:kwpos] + spec['before'] + '\n' + body[kwpos:]
+        # a loop the overlay says nothing about and that is not rule-generated (no default clauses) has NO invariant: arithmetic / index
+        # obligations inside or after it cannot be discharged even when the code is safe, so the function's implicit panic-freedom
+        # obligation is not decided (driver: undecided instead of a `panic_free` violation)
+        if not is_stub:
+            for o, (kwpos, bpos, kw) in enumerate(found):
+                if o not in loops and '/*@LOOPSPEC' not in body[kwpos:bpos] and 'invariant' not in body[kwpos:bpos]:
+                    self.unspec_loops.add(qname)
         # loops the overlay says nothing about: a rule-generated loop carries its own minimal clauses (cursor bound, termination), so code
         # that merely ADDS such an expression still passes the front end; everything else gets nothing
         body = _LOOPSPEC.sub(lambda m: ('\n' + m.group(1).strip()) if m.group(1) else '', body)
@@ -454,8 +486,12 @@ class Unit:
         os.makedirs(out_dir, exist_ok=True)
         txt = self.text()
         path = os.path.join(out_dir, self.name + '.rs')
-        with open(path, 'w') as f:
+        # atomic: two checks running at the same time generate the same unit (same text) into the same directory; a reader must never see a
+        # half-written file
+        tmp = '%s.%d.tmp' % (path, os.getpid())
+        with open(tmp, 'w') as f:
             f.write(txt)
+        os.replace(tmp, path)
         tagmap = {}
         for ln, line in enumerate(txt.split('\n'), 1):
             m = re.search(r'//\s*@ob\s+(.+?)\s*$', line)
@@ -464,10 +500,13 @@ class Unit:
         # function line ranges in the generated file
         fns = fn_ranges(txt)
         meta = dict(unit=self.name, file=path, tags=tagmap, functions=fns, provenance=self.prov,
-                    stubbed=self.stubbed, overlays=self.fn_overlays, restructured=sorted(self.restructured), imprecise=self.imprecise,
+                    stubbed=self.stubbed, overlays=self.fn_overlays, restructured=sorted(self.restructured), imprecise=self.imprecise, unspec_loops=sorted(self.unspec_loops),
                     sha256=hashlib.sha256(txt.encode()).hexdigest())
-        with open(os.path.join(out_dir, self.name + '.map.json'), 'w') as f:
+        mp = os.path.join(out_dir, self.name + '.map.json')
+        tmp = '%s.%d.tmp' % (mp, os.getpid())
+        with open(tmp, 'w') as f:
             json.dump(meta, f, indent=1)
+        os.replace(tmp, mp)
         return path, meta
 
 
